@@ -30,12 +30,22 @@ def strategy_case(draw):
     case = {"form": form, "N": N, "seed": draw(gen.SEED), "lib_seed": draw(gen.SEED),
             "Rx": draw(gen.ranks(d, 4)), "Rz": draw(gen.ranks(d, 2)),
             "zmax": draw(st.sampled_from([0.3, 1.0, 2.0])), "c": draw(st.sampled_from([1.0, 1.0, 0.5, 3.0]))}
+    if form in ("x/y", "s/y", "ediv") and draw(st.integers(0, 11)) == 0:
+        # large local problems: the quotient's ranks grow until r*n*r >= 500, which switches the local solver of the
+        # AMEn division from the dense solve to (preconditioned) GMRES
+        k = draw(st.integers(2, 3))
+        case["N"] = [draw(st.sampled_from([8, 10])) for _ in range(k)]
+        case["Rx"] = draw(gen.ranks(k, 4))
+        case["Rz"] = [1] + [2] * (k - 1) + [1]
+        case["zmax"] = 2.0
+        case["big"] = True
+        d = k
     if form in ("s/y", "ediv_scalar", "x/s"):
         case["s"] = draw(gen.scalar(["int", "float", "t0d", "t1"]))
         if case["s"]["value"] == 0:
             case["s"]["value"] = 2
     if form in ("ediv", "ediv_scalar"):
-        case["eps"] = 10 ** draw(st.floats(-11, -3))
+        case["eps"] = 10 ** draw(st.floats(-11, -3 if not case.get("big") else -8))
         case["prec"] = draw(st.sampled_from([None, None, "c"]))
         case["kick"] = draw(st.sampled_from([4, 4, 2]))
         if draw(st.floats(0, 1)) < 0.3:
@@ -59,6 +69,8 @@ def execute(case):
     d = len(N)
     u = UNIT["f64"]
     ck.label("form:" + form, "order:%d" % d)
+    if case.get("big"):
+        ck.label("big_local_problems")
     xc = core.make_cores({"N": N, "R": case["Rx"], "dt": "f64", "mode": "gauss", "seed": case["seed"]})
     x = T.TT(core.clone_cores(xc))
     xd = dense(xc)
